@@ -206,12 +206,20 @@ class C20(Prop):
             'what later callbacks see; resume of the chained Deferred; has_no_result / succeeded(Always|Never|Equals) / failed(Always|Never|exception code); '
             'classify = the three classifying matchers on three replicas of the Deferred; extract_result; afterwards the Deferred is dropped and the Twisted '
             'log is checked for "Unhandled error in Deferred". Plus tests run with SynchronousDeferredRunTest that return / raise / return fired or unfired '
-            'Deferreds. thorough adds every history of length <= 5 over a 14-operation alphabet and every history of length <= 3 over a 22-operation alphabet with the unusual values and exceptions. non-trivial = a history with a matcher or extract after at '
+            'Deferreds - in the test method or in setUp, optionally after registering a cleanup with positional and keyword arguments, which must have run with them. thorough adds every history of length <= 5 over a 14-operation alphabet and every history of length <= 3 over a 22-operation alphabet with the unusual values and exceptions. non-trivial = a history with a matcher or extract after at '
             'least one other operation, or a runUser case with a Deferred; distinct = distinct input S-expression')
     assumptions = ['twisted.internet.defer.Deferred (callback chain, pausing on a returned Deferred, AlreadyCalledError, DebugInfo.__del__ logging '
                    '"Unhandled error in Deferred" exactly when the last result is a Failure) is modelled by TTV.Deferred.runCbs/add/fire/resume, not verified',
                    'inner matchers are Always/Never/Equals (values) and Always/Never/exception-code (failures); they are assumed pure; with values whose '
                    '== is unusual only Always/Never are used (Equals would be answered by the value\'s own ==, which is not what is under test)',
+                   'reading (audit/C20 V1): the verdict clauses are per Deferred STATE at the moment of matching; succeeded()/failed() on a FAILED Deferred '
+                   'consume the failure (the errback that marks it handled leaves a successful None), so a second matcher on the same Deferred sees '
+                   'that new state - the statement promises intactness for unfired Deferreds and successful results only',
+                   'reading (audit/C20 V3): "fired" = a result is deliverable to a newly added callback; a paused Deferred (pause(), or waiting for a '
+                   'Deferred returned by a callback) and a Deferred examined from inside one of its own callbacks count as having no result',
+                   'outside the stated domain (audit/C20 borderline list): extract_result consumes the result it extracts (and on an unfired Deferred '
+                   'leaves its consumer attached - modelled); a test returning an unfired Deferred under SynchronousDeferredRunTest gets addSuccess and '
+                   'DeferredNotFired escapes run() (modelled as outcome notFired); values whose __repr__ raises; has_no_result() does not mark a failure handled',
                    'garbage collection: the Deferred is dropped and gc.collect() is run inside the case; CPython reference counting semantics are assumed',
                    'SynchronousDeferredRunTest: only the reported outcome kind is compared (not details or tracebacks)',
                    'translator tie: harness/pydeferred2lean.py reads on_deferred_result, the three matchers\' match + handlers, extract_result and '
@@ -257,7 +265,7 @@ class C20(Prop):
         try:
             if inp[0] == 'history':
                 return self.impl_history(inp[1])
-            return self.impl_run_user(inp[1])
+            return self.impl_run_user(*inp[1:])
         except Exception as e:
             return ['raised', type(e).__name__]
 
@@ -280,7 +288,12 @@ class C20(Prop):
             gc.enable()
         return ['history', obs, seen, called, logged]
 
-    def impl_run_user(self, beh):
+    def impl_run_user(self, beh, hint=None):
+        """hint = [stage, cleanup]: stage 'body' | 'setUp' = which stage behaves like `beh` (the other one is trivial); cleanup 'kw' = a
+        cleanup taking positional and keyword arguments is registered first (addCleanup(f, 1, key=2)) and must have run, with exactly those
+        arguments, when run() is over - whatever the stage did"""
+        stage, cleanup = hint or ['body', 'none']
+        calls = []
         import unittest
         import testtools
         from twisted.internet import defer
@@ -301,17 +314,30 @@ class C20(Prop):
             _, k, v = beh
             return defer.succeed(pyval(v)) if k is None else defer.fail(exc(case, k[1]))
 
+        def behave(case):
+            if cleanup == 'kw':
+                case.addCleanup(lambda *a, **k: calls.append((a, sorted(k.items()))), 1, key=2)
+            return body(case)
+
         class T(testtools.TestCase):
             run_tests_with = SynchronousDeferredRunTest
 
+            def setUp(self):
+                super().setUp()
+                if stage == 'setUp':
+                    return behave(self)
+
             def test(self):
-                return body(self)
+                if stage == 'body':
+                    return behave(self)
         r = ExtendedTestResult()
         raised = None
         try:
             T('test').run(r)
         except DeferredNotFired:
             raised = 'DeferredNotFired'
+        if cleanup == 'kw' and calls != [((1,), [('key', 2)])]:
+            return ['runUser', ['keyword-cleanup-not-run-as-registered', len(calls)]]
         ev = [e[0] for e in r._events]
         if ev[:1] != ['startTest'] or ev[-1:] != ['stopTest'] or len(ev) != 3:
             return ['runUser', ['bad-bracket'] + ev]
@@ -395,8 +421,10 @@ class C20(Prop):
            [['returnsFired', ['some', k], None] for k in ('failure', 'error', 'skip')]
 
     def gen(self, rng, tier):
-        if rng.random() < 0.06:
-            return ['runUser', rng.choice(self.BEHS)]
+        if rng.random() < 0.08:
+            beh = rng.choice(self.BEHS)
+            stage = 'setUp' if beh != 'returnsUnfired' and rng.random() < 0.4 else 'body'
+            return ['runUser', beh, [stage, rng.choice(['kw', 'kw', 'none'])]]
         return ['history', self.g_history(rng)]
 
     ALPHABET = [['fire', ['ok', ['num', 1]]], ['fire', ['ok', None]], ['fire', ['fail', 0]],
@@ -413,6 +441,9 @@ class C20(Prop):
     def enumerate(self, tier):
         for b in self.BEHS:
             yield ['runUser', b]
+            for stage in ('body', 'setUp'):
+                if not (stage == 'setUp' and b == 'returnsUnfired'):
+                    yield ['runUser', b, [stage, 'kw']]
         for n in range(1, 4):
             for ops in itertools.product(self.ALPHABET_WEIRD, repeat=n):
                 if any('sym' in str(op) or "'fail', 3" in str(op) or "'fail', 4" in str(op) or "'fail', 5" in str(op) for op in ops):
@@ -435,7 +466,10 @@ class C20(Prop):
         if isinstance(trace, list) and trace and trace[0] == 'raised':
             return ['harness-raised:' + str(trace[1])]
         if inp[0] == 'runUser':
-            return ['kind:runUser', 'runUser:' + (inp[1] if isinstance(inp[1], str) else inp[1][0] + ('-failed' if inp[1][0] == 'returnsFired' and inp[1][1] else ''))]
+            f = ['kind:runUser', 'runUser:' + (inp[1] if isinstance(inp[1], str) else inp[1][0] + ('-failed' if inp[1][0] == 'returnsFired' and inp[1][1] else ''))]
+            if len(inp) > 2:
+                f += ['runUser:stage=' + inp[2][0], 'runUser:cleanup=' + inp[2][1]]
+            return f
         ops = inp[1]
         f = ['kind:history', 'len=%s' % (len(ops) if len(ops) < 7 else '7+')]
         txt = str(ops)
